@@ -104,6 +104,99 @@ Proof.
 Qed.
 End Write.
 
+(* ------------------------- writeValue: exactly which shapes do not terminate *)
+Lemma all_w_done {A} (F : A -> wres) (G : A -> res unit) :
+  forall es, (forall c, In c es -> F c = WDone -> G c = Done tt) ->
+  all_w F es = WDone -> all_res G es = Done tt.
+Proof.
+  induction es as [|c r IH]; intros HFG Hw; simpl in *; [reflexivity|].
+  destruct (F c) eqn:E; try discriminate.
+  rewrite (HFG c (or_introl eq_refl) E). apply IH; auto.
+Qed.
+
+(* erasure: where the detector finishes, the real traversal finishes *)
+Lemma wv_check_done_write_done h :
+  forall fuel open path x, wv_check fuel h open path x = WDone ->
+    write_value code_guards fuel h path x = Done tt.
+Proof.
+  induction fuel as [|f IH]; intros open path x Hc; [discriminate|].
+  cbn [wv_check] in Hc. cbn [write_value].
+  destruct (lookup h x) as [o|]; [|discriminate].
+  destruct o as [| z | es | items | zs | es | fs | ds cs | recv]; try reflexivity;
+    cbn [g_wv_list g_wv_dict g_struct_path code_guards andb].
+  - destruct (memb x path); [reflexivity|].
+    eapply all_w_done; [|exact Hc]. intros c _ Hd. eapply IH; exact Hd.
+  - destruct (memb x path); [reflexivity|].
+    eapply all_w_done; [|exact Hc]. intros c _ Hd. eapply IH; exact Hd.
+  - eapply all_w_done; [|exact Hc]. intros c _ Hd. eapply IH; exact Hd.
+  - destruct (memb x open); [discriminate|].
+    eapply all_w_done; [|exact Hc]. intros c _ Hd. eapply IH; exact Hd.
+Qed.
+
+Lemma all_w_cases {A} (F : A -> wres) (P : A -> Prop) :
+  (forall c, P c -> F c = WDone \/ F c = WStructCycle) ->
+  forall es, Forall P es -> all_w F es = WDone \/ all_w F es = WStructCycle.
+Proof.
+  intros HF. induction es as [|c r IH]; intros HP; simpl; [left; reflexivity|].
+  inversion HP as [|? ? Hc Hr]; subst.
+  destruct (HF c Hc) as [E|E]; rewrite E; [apply IH; exact Hr | right; reflexivity].
+Qed.
+
+Lemma check_arith_push N A A' c x f : A' < A -> c < N -> A * (N + 1) + x < S f -> A' * (N + 1) + c < f.
+Proof. intros. nia. Qed.
+Lemma struct_push_arith N uo uo' u0 up : uo' < uo -> u0 <= N -> uo' * (N + 2) + u0 < uo * (N + 2) + up.
+Proof. intros. nia. Qed.
+Lemma check_arith_down N A c x f : c < x -> A * (N + 1) + x < S f -> A * (N + 1) + c < f.
+Proof. intros. nia. Qed.
+
+(* the detector itself always ends on a heap the interpreter can build *)
+Lemma wv_check_total h : wf_heap h = true ->
+  forall fuel open path x, x < size h ->
+    (unvisited (size h) open * (size h + 2) + unvisited (size h) path) * (size h + 1) + x < fuel ->
+    wv_check fuel h open path x = WDone \/ wv_check fuel h open path x = WStructCycle.
+Proof.
+  intros Hwf. set (N := size h).
+  induction fuel as [|f IH]; intros open path x Hx Hf; [lia|].
+  destruct (lookup_lt h x Hx) as [o Ho].
+  pose proof (wf_lookup h x o Hwf Ho) as Hw.
+  cbn [wv_check]. rewrite Ho.
+  destruct o as [| z | es | items | zs | es | fs | ds cs | recv]; cbn [obj_wf] in Hw; try (left; reflexivity).
+  - destruct (memb x path) eqn:Hm; [left; reflexivity|].
+    apply all_w_cases with (P := fun c => c < N); [| apply all_lt_Forall; exact Hw].
+    intros c Hc. apply IH; auto.
+    eapply check_arith_push; [| exact Hc | exact Hf].
+    apply Nat.add_lt_mono_l. exact (unvisited_push N path x Hx Hm).
+  - destruct (memb x path) eqn:Hm; [left; reflexivity|].
+    apply all_w_cases with (P := fun c => c < N); [| apply all_lt_Forall; exact Hw].
+    intros c Hc. apply IH; auto.
+    eapply check_arith_push; [| exact Hc | exact Hf].
+    apply Nat.add_lt_mono_l. exact (unvisited_push N path x Hx Hm).
+  - apply all_w_cases with (P := fun c => c < x); [| apply all_lt_Forall; exact Hw].
+    intros c Hc. apply IH; [lia|].
+    eapply check_arith_down; [exact Hc | exact Hf].
+  - destruct (memb x open) eqn:Hm; [right; reflexivity|].
+    apply all_w_cases with (P := fun c => c < x); [| apply all_lt_Forall; exact Hw].
+    intros c Hc. apply IH; [lia|].
+    eapply check_arith_push with (x := x); [| | exact Hf]; [| lia].
+    pose proof (unvisited_push N open x Hx Hm) as Hp.
+    pose proof (unvisited_le N []) as H0.
+    apply struct_push_arith; assumption.
+Qed.
+
+Lemma cube_arith u v n x : u <= n -> v <= n -> x < n -> (u * (n + 2) + v) * (n + 1) + x < (n + 2) * (n + 2) * (n + 2).
+Proof. intros. nia. Qed.
+
+Lemma write_value_dichotomy_lemma h x : wf_heap h = true -> x < size h ->
+  wv_check (cube_bound h) h [] [] x = WStructCycle \/
+  write_value code_guards (cube_bound h) h [] x = Done tt.
+Proof.
+  intros Hwf Hx.
+  destruct (wv_check_total h Hwf (cube_bound h) [] [] x Hx) as [E|E].
+  - unfold cube_bound. apply cube_arith; [apply unvisited_le | apply unvisited_le | exact Hx].
+  - right. eapply wv_check_done_write_done. exact E.
+  - left. exact E.
+Qed.
+
 (* -------------------------------------------------------------------- Hash *)
 Definition settled (r : res unit) : Prop := r = Done tt \/ r = Fail.
 
